@@ -256,3 +256,133 @@ func synthTable(r *hx.Rand, i int) (file, probeB, probeU []byte) {
 }
 
 func big5lead(r *hx.Rand) int { return 0x81 + r.Intn(0x7E) }
+
+// ---- pass "loader": histories of types.InitConfig in one process ------------------------------------------------
+
+func generateLoader() {
+	r := run.R
+	run.Rule = "histories of the table loader in ONE process (child per history): 1-5 types.InitConfig calls whose two table paths are " +
+		"readable or not (missing file, directory), set through the package variables or through an ini file read by viper, with conversions " +
+		"after every call. Real tables: failure between the two tables then retry (full sweeps: all 65536 two-byte codes, all 2-/3-byte " +
+		"encodings), failure on the first table then retry, retry through a corrected ini, re-initialisation after success; random histories " +
+		"over small synthetic well-formed tables. distinct = distinct op lines; nontrivial = every op of a history"
+	var b2uSweep, u2bSweep []string
+	for a := 0x80; a < 256; a++ {
+		for b := 0; b < 256; b++ {
+			b2uSweep = append(b2uSweep, "hb2u "+hx.Hex([]byte{byte(a), byte(b)}))
+		}
+	}
+	for cp := 0x80; cp <= 0xFFFF; cp++ {
+		u2bSweep = append(u2bSweep, "hu2b "+hx.Hex(encGen(cp)))
+	}
+	var mutual []string
+	for k := range ref.b2u {
+		if ref.mutualOnly([]byte{byte(k >> 8), byte(k)}) {
+			mutual = append(mutual, "hrt "+hx.Hex([]byte{byte(k >> 8), byte(k)}))
+		}
+	}
+	sort.Strings(mutual)
+	sample := func(ops []string, every int) []string {
+		if every <= 1 {
+			return ops
+		}
+		var out []string
+		for i := r.Intn(every); i < len(ops); i += every {
+			out = append(out, ops[i])
+		}
+		return out
+	}
+	probes := []string{"hb2u a44041", "hu2b e4b88041", "hrt a440", "hu2b 80", "hb2u a4"}
+	realHistory := func(inits []string, every int) {
+		do("reset", true)
+		for k, in := range inits {
+			do(in, true)
+			if k < len(inits)-1 {
+				for _, p := range probes {
+					do(p, true)
+				}
+			}
+		}
+		// first the probes and a small sample (a failure here has a replay of < 400 ops: the check keeps the last 400
+		// ops of a history), then the sweeps
+		for _, p := range probes {
+			do(p, true)
+		}
+		histBatchConv(sample(b2uSweep, 400))
+		histBatchConv(sample(u2bSweep, 400))
+		histBatchConv(sample(mutual, 400))
+		histBatchConv(sample(b2uSweep, every))
+		histBatchConv(sample(u2bSweep, every))
+		histBatchConv(sample(mutual, every*4))
+	}
+	every := 16
+	if run.Thorough() {
+		every = 1
+	}
+	// the second table cannot be read, then the path is corrected: full sweeps in both tiers
+	realHistory([]string{"init var Rb X", "init var Rb Ru"}, 1)
+	realHistory([]string{"init var X Ru", "init var Rb Ru"}, every)
+	realHistory([]string{"init var Rb D", "init ini Rb Ru"}, every)
+	realHistory([]string{"init ini Rb X", "init ini Rb Ru"}, every)
+	realHistory([]string{"init var X X", "init var Rb X", "init var X Ru"}, every)
+	realHistory([]string{"init var Rb Ru", "init var X X"}, every)
+
+	// random histories over small synthetic well-formed tables
+	n := 60
+	if run.Thorough() {
+		n = 1500
+	}
+	for i := 0; i < n; i++ {
+		nRows := 2 + r.Intn(6)
+		if r.Intn(12) == 0 {
+			nRows = 0 // header only: the "already loaded" guard never holds for this table
+		}
+		eol := []string{"\n", "\r\n"}[r.Intn(2)]
+		var tb, tu strings.Builder
+		tb.WriteString("# big5 unicode" + eol)
+		tu.WriteString("# big5 unicode" + eol)
+		var convs []string
+		for k := 0; k < nRows; k++ {
+			big5 := 0x8140 + r.Intn(0x7E00)
+			cp := []int{0x80 + r.Intn(0x780), 0x800 + r.Intn(0xD000), 0xE000 + r.Intn(0x1FFE)}[r.Intn(3)]
+			fmt.Fprintf(&tb, "0x%04X 0x%04X%s", big5, cp, eol)
+			switch r.Intn(3) {
+			case 0: // mutual
+				fmt.Fprintf(&tu, "0x%04X 0x%04X%s", big5, cp, eol)
+			case 1: // one-way
+				fmt.Fprintf(&tu, "0x%04X 0x%04X%s", 0x8140+r.Intn(0x7E00), cp, eol)
+			default:
+				fmt.Fprintf(&tu, "0x%04X 0x%04X%s", big5, 0x80+r.Intn(0xD000), eol)
+			}
+			code := []byte{byte(big5 >> 8), byte(big5)}
+			convs = append(convs, "hb2u "+hx.Hex(code), "hu2b "+hx.Hex(encGen(cp)), "hrt "+hx.Hex(append([]byte{'A'}, code...)))
+		}
+		convs = append(convs, "hb2u a44041", "hu2b e4b88041")
+		sb, su := "S"+hx.Hex([]byte(tb.String())), "S"+hx.Hex([]byte(tu.String()))
+		do("reset", true)
+		nInit := 2 + r.Intn(4)
+		for k := 0; k < nInit; k++ {
+			pick := func(t string) string {
+				switch r.Intn(5) {
+				case 0:
+					return "X"
+				case 1:
+					return "D"
+				}
+				return t
+			}
+			b, u := pick(sb), pick(su)
+			if k == nInit-1 && r.Intn(2) == 0 {
+				b, u = sb, su // most histories end with both paths corrected
+			}
+			via := "var"
+			if r.Intn(4) == 0 {
+				via = "ini"
+			}
+			do(fmt.Sprintf("init %s %s %s", via, b, u), true)
+			for _, c := range convs {
+				do(c, true)
+			}
+		}
+	}
+}
